@@ -121,6 +121,15 @@ type reader struct {
 }
 
 // Engine runs histories.
+// RollbackTrunc records what a rollback did to the file: sizes in bytes, NewSize -1 = not truncated.
+type RollbackTrunc struct {
+	SzBefore           int64
+	MetaEnd, DataEnd   uint64
+	MaxPages, PageSize uint
+	NewSize            int64
+	Failed             bool // the size query or the truncate call itself failed (fault injection)
+}
+
 type Engine struct {
 	Cfg  Config
 	Disk *simdisk.Disk
@@ -129,6 +138,8 @@ type Engine struct {
 	// Attempt: the state a failed Commit tried to commit (nil if none since the last successful
 	// commit). After a reopen the file may legitimately show it when the failure was the final sync.
 	Attempts []State
+	// RollbackTruncs: the truncation (or none) of every Rollback / Close of a write transaction
+	RollbackTruncs []RollbackTrunc
 	// OpenAttempt: an open-time transaction (max-size update) ran while I/O calls failed - the disk may show its
 	// attempt while the process goes on with the state before it (until its next successful commit)
 	OpenAttempt bool
@@ -804,11 +815,32 @@ func (e *Engine) apply(op Op) Result {
 		if !needTx() {
 			return Result{Skipped: true}
 		}
+		szBefore, logAt, sizeCalls := e.Disk.CurSize(), e.Disk.LogLen(), e.Disk.Count(simdisk.OpSize)
 		var err error
 		if op.Kind == "rollback" {
 			err = e.Tx.Rollback()
 		} else {
 			err = e.Tx.Close()
+		}
+		if len(e.RollbackTruncs) < 32 && e.File != nil {
+			// what the rollback did to the file size (compared with the Coq model rollback_truncate by campaigns
+			// that have a model client)
+			sn := txfile.VerifSnapshot(e.File)
+			if e.Disk.Count(simdisk.OpSize) > sizeCalls {
+				// (writes scheduled by Flush may still have extended the file inside the call: the size that counts
+				// is the one the rollback asked for)
+				szBefore = e.Disk.LastSizeResult()
+			}
+			rt := RollbackTrunc{SzBefore: szBefore, MetaEnd: sn.MetaEnd, DataEnd: sn.DataEnd, MaxPages: sn.MaxPages, PageSize: sn.PageSize, NewSize: -1}
+			for _, d := range e.Disk.LogCopy()[logAt:] {
+				if d.Kind == simdisk.OpTruncate {
+					rt.NewSize, rt.Failed = d.Size, d.Failed
+				}
+				if d.Kind == simdisk.OpSize && d.Failed {
+					rt.Failed = true
+				}
+			}
+			e.RollbackTruncs = append(e.RollbackTruncs, rt)
 		}
 		e.resetTx()
 		if err != nil {
